@@ -150,11 +150,11 @@ PROPS = {
  },
  "C11": {
   "module": "Zog.Props.C11",
-  "theorems": [P + "C11." + t for t in ["catalogue_complete_en", "catalogue_complete_es", "catalogue_complete_default", "catalogue_described", "catalogue_well_formed", "no_value_placeholder", "test_message_wins", "exec_formatter_next", "global_formatter_last", "issue_of_test_described", "i18n_uses_ctx_lang", "i18n_default_lang"]],
+  "theorems": [P + "C11." + t for t in ["catalogue_complete_en", "catalogue_complete_es", "catalogue_complete_default", "catalogue_described", "catalogue_well_formed", "user_tests_complete_en", "user_tests_complete_es", "user_tests_complete_default", "user_tests_described", "no_value_placeholder", "test_message_wins", "exec_formatter_next", "global_formatter_last", "issue_of_test_described", "i18n_uses_ctx_lang", "i18n_default_lang"]],
   "streams": [st("msg", 1, 1), eng(2500, 100000, "fmt")],
   "trusted_base": ["regenerated on every run (run-time dump of the compiled maps and of every built-in test): lean/Zog/Gen/Tables.lean, lean/Zog/Gen/Catalogue.lean",
                    "modelled, not verified: lean/Zog/Msg.lean mirrors conf/issueFormatConf.go NewDefaultFormatter and i18n/i18n.go; strings.ReplaceAll and fmt %v are external"] + ENGINE_TB,
-  "assumptions": ["Custom schemas are outside the catalogue (no built-in tests, no shipped templates)"],
+  "assumptions": ["a test's own Message that itself contains {{...}} is the user's text, not an unresolved placeholder"],
  },
  "C20": {
   "module": "Zog.Props.C20",
@@ -167,7 +167,7 @@ PROPS = {
  "C19": {
   "module": "Zog.Props.C19",
   "theorems": COMMON + [P + "C19." + t for t in ["no_schema_writes", "validate_prim_frame", "second_run_same", "slice_default_is_copied"]],
-  "streams": [st("alias", 2500, 100000), eng(1500, 50000), eng(1500, 50000, "prepop"), st("front", 400, 10000)],
+  "streams": [st("alias", 2500, 100000), eng(1500, 50000), eng(1500, 50000, "prepop"), eng(1500, 50000, "nested"), st("front", 400, 10000)],
   "trusted_base": ENGINE_TB + ["Go memory aliasing is not expressible in the value model: destination/schema sharing is decided by the S-alias stream on the real code (second-run equality, input snapshots) and the go/ast fact schemaWrites = []"],
   "assumptions": ENGINE_ASSUME,
  },
